@@ -83,7 +83,7 @@ RelOK(rel, out) ==
       [] rel.shape \in {"ident", "identbadtype", "identnotype"} -> out = "accept" => (rel.to1 /\ rel.got = rel.listed)
       [] rel.shape = "badtypenoid" -> out = "accept" => rel.got = <<>>
       [] rel.shape = "list"  -> out = "accept" => (~rel.to1 /\ rel.got = rel.listed)
-      [] rel.shape = "listbadtail" -> out = "reject"     \* every member of the list is of the target type
+      [] rel.shape \in {"listbadtail", "listbadnoid"} -> out = "reject"     \* every member of the list is of the target type (with or without an id)
       [] OTHER -> FALSE
 
 \* an identifier object for a to-many, or a list for a to-one, cannot be accepted
